@@ -687,7 +687,9 @@ class TableReader:
         """Read and yield XlsObjects from excel worksheet"""
         assert cls.ATTR_RULES is not None, (
             f"'ATTR_RULES' not defined in TableReader deriveed class {cls}")
-        yield from iter_table(worksheet, cls, cls.ATTR_RULES)
+        yield from iter_table(
+            worksheet, cls, cls.ATTR_RULES,
+            stop_on=cls.STOP_ON, ladder_format=cls.LADDER_FORMAT)
 
     @classmethod
     def read_list(cls, worksheet):
